@@ -779,10 +779,7 @@ pub fn check_segment_pair(rng: &mut crate::util::Rng, st: &mut SweepStats) -> Re
         if !(t0 < tm && tm < t1) {
             return Ok(());
         }
-        let pt_on = |t: f64| if rng_swap(k) { (k * t, t) } else { (t, k * t) };
-        fn rng_swap(_k: f64) -> bool {
-            false
-        }
+        let pt_on = |t: f64| (t, k * t);
         let old = (pt_on(t0), pt_on(t1));
         let start = pt_on(tm);
         let end = (start.0 + [1.0, 0.5, 7.0, 2.0f64.powi(-10)][rng.below(4) as usize], start.1 + (rng.range(-2000, 2000) as f64) / 64.0);
